@@ -25,7 +25,7 @@ MODEL_FILES = ["Model", "Run"]
 
 # instances per class in the reflection sweep
 QUOTA = {"quick": {"Field": 3, "Data": 4, "Domain": 2, "Constructs": 2, "*": 1},
-         "thorough": {"Field": 10, "Data": 20, "Domain": 6, "Constructs": 6, "*": 6}}
+         "thorough": {"Field": 21, "Data": 60, "Domain": 12, "Constructs": 12, "*": 16}}
 # labels that are always included (minimised past failures / structurally special)
 ALWAYS = ["g0", "f6.auxiliarycoordinate0", "data.masked", "array.numpy.masked", "f3c.data", "f1.coordinatereference1",
           "f1.dimensioncoordinate0", "cellmethod.new", "file-netCDF4-0.data"]
